@@ -691,6 +691,11 @@ class Task:
         for ch in self.children:
             ch._attach(wbs)
 
+    def _detach(self):
+        self.__wbs = None
+        for ch in self.children:
+            ch._detach()
+
     @property
     def id(self) -> Union[int, str]:
         return self.__id
@@ -823,6 +828,8 @@ class Task:
 
         for v in self.__children:
             v.__parent = None
+            # Tasks left out of the new list are released from WBS, tasks listed again are re-attached below
+            v._detach()
 
         self.__children.clear()
 
